@@ -524,6 +524,34 @@ class BlockMachine(Machine):
                     pos += sz
                 b.segs = out or None
             return 0
+        if op == 'splice':
+            if b is None:
+                return ('null',)
+            n = self.norm(b, v[1], v[2], node)
+            if n is None:
+                return ('null',)
+            if v[0][0] == 'uref':
+                return self.new_uref(b.data[n[0]:n[0] + n[1]], self.urefs[v[0][1]].attrs)
+            return self.new_buf(b.data[n[0]:n[0] + n[1]])
+        if op == 'truncate':
+            if b is None or not isinstance(v[1], int):
+                return self.err_invalid
+            if v[1] < 0 or v[1] > len(b.data):
+                return self.err_invalid
+            del b.data[v[1]:]
+            return 0
+        if op == 'scan':
+            if b is None:
+                return self.err_invalid
+            start = self.in_load(v[1])
+            if not isinstance(start, int) or not isinstance(v[2], int):
+                raise Undecided('scan with a symbolic offset or word at line %s' % ln)
+            for i in range(start, len(b.data)):
+                if b.data[i] == (v[2] & 0xff):
+                    self.out_store(v[1], i, node)
+                    return 0
+            self.out_store(v[1], len(b.data), node)
+            return self.err_invalid
         if op == 'append':
             o = v[1]
             if b is None or not (isinstance(o, tuple) and o[0] == 'ubuf'):
